@@ -152,7 +152,7 @@ fn judge(obs: Obs, exp: &[Px], w: usize, mismatch_sig: &str, what: &str, case: &
 // ---------------------------------------------------------------------------------------
 // families
 
-const FAMILIES: [&str; 9] = ["pos", "val16", "val8", "rgb5a3", "ci8val", "pal", "etc-grid", "etc-oor", "etc-alpha"];
+const FAMILIES: [&str; 10] = ["pos", "val16", "val8", "rgb5a3", "ci8val", "pal", "etc-alpha", "etc-oor", "etc-grid", "rand"];
 
 /// Families whose expected output is not pinned to exact bytes in every channel (tolerance or
 /// open outcomes): their outputs are additionally compared between the two builds.
@@ -178,6 +178,10 @@ fn pal_max(tier: Tier) -> usize {
     tier.pick(17, 64)
 }
 
+fn rand_seeds(tier: Tier) -> u64 {
+    tier.pick(4, 32)
+}
+
 fn chunk_count(tier: Tier, fam: &str) -> u64 {
     match fam {
         "pos" => 9 * pos_sizes(tier).len() as u64,
@@ -189,6 +193,7 @@ fn chunk_count(tier: Tier, fam: &str) -> u64 {
         "etc-grid" => 2 * 2 * 8 * 8 * 3,
         "etc-oor" => 2 * 8 * 8 * 3,
         "etc-alpha" => 1,
+        "rand" => 9 * pos_sizes(tier).len() as u64 * rand_seeds(tier),
         _ => 0,
     }
 }
@@ -722,6 +727,25 @@ fn run_etc_alpha(t: &mut Tally, hashes: &mut Vec<Option<u64>>) {
     }
 }
 
+/// Deterministic pseudo-random payloads: every format x every size x a few seeds. For the ETC
+/// formats only blocks the rules define; even seeds restrict differential deltas to 0..=3.
+fn run_rand(tier: Tier, chunk: u64, t: &mut Tally, hashes: &mut Vec<Option<u64>>) {
+    let sizes = pos_sizes(tier);
+    let fmt = Fmt::ALL[(chunk % 9) as usize];
+    let (w, h) = sizes[(chunk / 9) as usize % sizes.len()];
+    let seed = chunk / (9 * sizes.len() as u64);
+    let payload = rp::random_payload(fmt, w, h, 0xC19_0000 + chunk * 7919, seed % 2 == 1);
+    let exp = rp::decode_3ds(fmt, w, h, &payload).expect("exact size");
+    let case = case_of("rand", chunk);
+    for &route in routes_for(fmt) {
+        t.cases += 1;
+        t.nontrivial += nontrivial(&exp.px) as u64;
+        t.class_n(&format!("random:{}", fmt.name()), 1);
+        let what = format!("{} {}x{} pseudo-random payload (seed {}) via {:?}", fmt.name(), w, h, seed, route);
+        hashes.push(judge(observe_3ds(route, fmt, w, h, &payload), &exp.px, w, &format!("pixel-random:{}", fmt.name()), &what, &case, t));
+    }
+}
+
 /// Run one chunk; returns the hashes of the outputs of its calls (for the cross-build pass).
 fn run_chunk(tier: Tier, fam: &str, chunk: u64, t: &mut Tally) -> Vec<Option<u64>> {
     let mut h = Vec::new();
@@ -735,6 +759,7 @@ fn run_chunk(tier: Tier, fam: &str, chunk: u64, t: &mut Tally) -> Vec<Option<u64
         "etc-grid" => run_etc_grid(tier, chunk, t),
         "etc-oor" => run_etc_oor(chunk, t, &mut h),
         "etc-alpha" => run_etc_alpha(t, &mut h),
+        "rand" => run_rand(tier, chunk, t, &mut h),
         _ => {}
     }
     h
@@ -821,8 +846,8 @@ fn compare_builds(fam: &str, chunk: u64, mine: &[Option<u64>], theirs: &[Option<
 fn explore(ctx: &Ctx) -> Outcome {
     let tier = ctx.tier;
     let mut chunks: Vec<(String, u64)> = Vec::new();
-    // the heavy family first so that the thread pool drains evenly
-    for fam in ["etc-grid", "etc-oor", "pos", "val16", "rgb5a3", "pal", "val8", "ci8val", "etc-alpha"] {
+    // small families first: their signatures then survive the caps on recorded violations
+    for fam in FAMILIES {
         for c in 0..chunk_count(tier, fam) {
             chunks.push((fam.to_string(), c));
         }
@@ -842,10 +867,18 @@ fn explore(ctx: &Ctx) -> Outcome {
         .collect();
     let mut total = Tally::new();
     let mut mine: HashMap<(String, u64), Vec<Option<u64>>> = HashMap::new();
-    for (t, hs) in results {
+    let mut kept: Vec<Violation> = Vec::new();
+    for (mut t, hs) in results {
+        // at most 8 recorded violations per signature over the whole run
+        for v in std::mem::take(&mut t.violations) {
+            if kept.iter().filter(|k| k.sig == v.sig).count() < 8 {
+                kept.push(v);
+            }
+        }
         total.absorb(t);
         mine.extend(hs);
     }
+    total.violations = kept;
 
     // standing determinism check of the harness: a slice of the chunks is run twice
     let mut machinery: Vec<String> = Vec::new();
@@ -882,7 +915,7 @@ fn explore(ctx: &Ctx) -> Outcome {
 
     let fam_json: Vec<Value> = FAMILIES.iter().map(|f| json!({"family": f, "chunks": chunk_count(tier, f), "completed": true})).collect();
     let mut o = total.into_outcome(
-        "every member of nine families is decoded by mila and compared pixel by pixel with the reference decoders: (pos) each of the 9 formats x each size x index-revealing payload planes (every output pixel must show the stored element the Morton / block layout assigns to it); (val16) ALL 65536 values of RGBA5551/RGB565/RGBA4/LA8 in two arrangements; (val8) all 256 values of L8, A8 and of each RGBA8 byte on three backgrounds; (rgb5a3) ALL 65536 RGB5A3 values singly, in runs and as TPL palettes; (ci8val) all 256 indices against palettes of 256/255/2/1 entries; (pal) CI8 images of EVERY width x height up to the bound through TPL with an identity-revealing palette; (etc-grid) ALL 256 (mode, flip, table1, table2) x each channel over all 16x16 base pairs (individual) / all defined base+delta pairs (differential) x 20 selector planes, as ETC1 and ETC1A4; (etc-oor) the undefined base+delta pairs: no panic, neighbours intact, same output in both builds; (etc-alpha) the 16 alpha nibbles in every rotation. A case is one decoded texture (one block in the ETC grids); non-trivial = the expected image is not a single colour",
+        "every member of ten families is decoded by mila and compared pixel by pixel with the reference decoders: (pos) each of the 9 formats x each size x index-revealing payload planes (every output pixel must show the stored element the Morton / block layout assigns to it); (val16) ALL 65536 values of RGBA5551/RGB565/RGBA4/LA8 in two arrangements; (val8) all 256 values of L8, A8 and of each RGBA8 byte on three backgrounds; (rgb5a3) ALL 65536 RGB5A3 values singly, in runs and as TPL palettes; (ci8val) all 256 indices against palettes of 256/255/2/1 entries; (pal) CI8 images of EVERY width x height up to the bound through TPL with an identity-revealing palette; (etc-grid) ALL 256 (mode, flip, table1, table2) x each channel over all 16x16 base pairs (individual) / all defined base+delta pairs (differential) x 20 selector planes, as ETC1 and ETC1A4; (etc-oor) the undefined base+delta pairs: no panic, neighbours intact, same output in both builds; (etc-alpha) the 16 alpha nibbles in every rotation; (rand) each format x size with deterministic pseudo-random payloads (ETC: defined blocks only). A case is one decoded texture (one block in the ETC grids); non-trivial = the expected image is not a single colour",
         true,
         vec![("families", json!(fam_json)), ("cross_build", cross), ("position_sizes", json!(pos_sizes(tier))), ("palette_sizes", json!(format!("1..={} squared", pal_max(tier))))],
     );
